@@ -60,7 +60,7 @@ pub trait Symbol: MatrixElement + PartialEq + Sized {
 pub open spec fn wild<S: Symbol>() -> S { S::default_value() }
 
 pub trait Alphabet: Sized {
-    type Symbol: Symbol;
+    type Symbol: Symbol + 'static;
     type K: Unsigned;
     proof fn idx_bound(s: Self::Symbol) ensures s.idx() < Self::K::USIZE;
     proof fn idx_injective(s: Self::Symbol, t: Self::Symbol) ensures s.idx() == t.idx() ==> s == t;
